@@ -37,6 +37,28 @@ ASSUMPTIONS = [
 SGR = re.compile("\x1b\\[[0-9;]*m")
 
 
+def opt_names(o):
+    """(preferred, alternative or None) as the user types them."""
+    if o["short"] and o.get("prefer") != "long":
+        return "-" + o["short"], "--" + o["long"]
+    if o["short"]:
+        return "--" + o["long"], "-" + o["short"]
+    return "--" + o["long"], None
+
+
+def names_on_one_line(text, preferred, alternative):
+    """The preferred name appears, and the alternative after it on the same line."""
+    def tok(n):
+        return re.compile(r"(?<![\w-])%s(?![\w-])" % re.escape(n))
+    for line in text.split("\n"):
+        m = tok(preferred).search(line)
+        if not m:
+            continue
+        if alternative is None or tok(alternative).search(line, m.end()):
+            return True
+    return False
+
+
 def opt_label(o):
     if o["short"] and o.get("prefer") != "long":
         return "-%s (--%s)" % (o["short"], o["long"])
@@ -122,7 +144,7 @@ def expected_names(tree, path):
             for a in x["args"]:
                 must.append(("argument", "<%s>" % a["name"]))
             for o in x["opts"]:
-                must.append(("option", opt_label(o)))
+                must.append(("option-names", opt_names(o)))
     return must, mustnot
 
 
@@ -142,7 +164,11 @@ def check_page(sh, env, tree, app, path, W, ansi, case):
     text = SGR.sub("", io.fetch_output())
     must, mustnot = expected_names(tree, path)
     for kind, s in must:
-        if s not in text:
+        if kind == "option-names":
+            if not names_on_one_line(text, s[0], s[1]):
+                sh.violate("incomplete", case, "option %s%s is missing from the page (preferred name first)" % (s[0], " with alternative " + s[1] if s[1] else ""))
+                return text
+        elif s not in text:
             sh.violate("incomplete", case, "%s %r is missing from the page" % (kind, s))
             return text
     if path == ():
@@ -150,9 +176,9 @@ def check_page(sh, env, tree, app, path, W, ansi, case):
             if o not in text:
                 sh.violate("incomplete", case, "global option %s missing from the application page" % o)
     else:
-        for o in ("-h (--help)", "-q (--quiet)", "-n (--no-interaction)"):
-            if o not in text:
-                sh.violate("incomplete", case, "inherited global option %r missing from the command page" % o)
+        for pref, alt in (("-h", "--help"), ("-q", "--quiet"), ("-n", "--no-interaction")):
+            if not names_on_one_line(text, pref, alt):
+                sh.violate("incomplete", case, "inherited global option %s (%s) missing from the command page" % (pref, alt))
                 break
     for s in mustnot:
         if s in text:
